@@ -269,6 +269,40 @@ end
 Zbo :: blob {
     inner: Zbx,
 }
+zgneg1 :: fn x -> do
+    (-x)
+end
+zgdbl :: fn x -> do
+    x + x
+end
+ztwice :: fn f: fn str -> str, s: str -> str do
+    f(f(s))
+end
+zgbump :: fn p -> do
+    p.b + 1
+end
+zgbumpa :: fn p -> do
+    p.a + 1
+end
+zrunt :: fn fs: (fn Zb -> int, int) -> int do
+    fs[0](ZBV) + fs[1]
+end
+Zhf :: blob {
+    h: fn str -> str,
+}
+zrunb :: fn b: Zhf -> str do
+    b.h("ab")
+end
+ztakesb :: fn q: Zb -> int do
+    q.a
+end
+Zin :: blob {
+    v: int,
+}
+Zout :: blob {
+    get: fn -> int,
+    child: Zin,
+}
 """
 
 
@@ -1015,6 +1049,24 @@ C03_KINDS.update({
 })
 
 
+C03_KINDS.update({
+    # a generic helper whose body needs an operator / a field of its parameter, instantiated at a type that does not have it
+    # through NESTED unification only: passed as a higher-order argument, inside a tuple / a blob field / a list, bound to an
+    # annotated variable, returned (the deferred constraint sits on a variable inside the function type)
+    "generic-hof-neg":        ('ztwice(zgneg1, "ab")', None),
+    "generic-hof-lambda":     ('ztwice(fn x -> do (-x) end, "ab")', None),
+    "generic-hof-tuple":      ('zrunt((zgbump, 0))', None),
+    "generic-hof-blob-field": ('zrunb(Zhf { h: zgneg1 })', None),
+    "generic-hof-list":       (None, ['zhl1: [fn str -> str] : [zgneg1]']),
+    "generic-hof-var":        (None, ['zhv1: fn str -> str : zgneg1']),
+    "generic-hof-ret":        (None, ['zhr1 :: fn -> fn str -> str do', '    zgneg1', 'end']),
+    "generic-hof-assign":     (None, ['zhv2 := zgdbl', 'zhv3: fn str -> str = zhv2', 'zhv3 = zgneg1']),
+    "generic-hof-tuple-var":  (None, ['zht1: (fn Zb -> int, int) : (zgbump, 0)']),
+    "ok:generic-hof":         (None, ['ztwice(zgdbl, "ab") <=> "abababab"', 'zrunt((zgbumpa, 0)) <=> 2', 'zrunb(Zhf { h: zgdbl }) <=> "abab"',
+                                      'zhl1: [fn str -> str] : [zgdbl]', 'zhv1: fn str -> str : zgdbl']),
+})
+
+
 def c03_plants(tmpl, kinds=None):
     """[(kind, 'S'|'E', slot id, info, payload)] -- every placement of every mismatch kind"""
     out = []
@@ -1134,6 +1186,14 @@ C04_KINDS = {
     "ok:impure-assign-param-index": (["zpf :: fn q: (int, int) -> int do", "    q[0] = 2", "    q[1] *= 2", "    1", "end"], "impure"),
     "ok:impure-assign-global-field": (["ZBV.a = 2", "ZT[0] = 3"], "impure"),
     "ok:pure-reads-field":         (["zpf :: pu q: Zb -> int do", "    q.a + ZBV.a + ZT[0]", "end"], "any"),
+    # a pure function calls its UN-ANNOTATED parameter, an impure function is passed at the call site: directly, and from a
+    # nested pure closure in a branch of a case (nothing is known of the callee where it is called)
+    "pure-call-unannotated-param": (["zpa :: pu f, x: int -> int do", "    f(x)", "end", "zpa(zimp, 1)"], "impure"),
+    "pure-call-unannotated-nested": (["zpa :: pu f, q: Ze -> int do", "    case q do", "        P v ->", "            zin :: pu y: int -> int do",
+                                      "                if y > 0 do", "                    ret f(y) + y", "                end", "                0",
+                                      "            end", "            zin(v)", "        end", "        Q ->", "            0", "        end", "    end", "end",
+                                      "zpa(zimp, ZEV)"], "impure"),
+    "pure-call-unannotated-closure": (["zpa :: pu f -> int do", "    zin :: pu -> int do", "        f(1)", "    end", "    zin()", "end", "zpa(zimp)"], "impure"),
     # impure where pu declared
     "impure-as-pu-var":     (["zq6: pu int -> int : zimp"], "any"),
     "impure-as-pu-arg":     (["ztakes_pu(zimp)"], "impure"),
@@ -1273,6 +1333,23 @@ def c05_plants(tmpl, g, r, kinds=None):
                                    [hd, '    zg :: fn -> int do', '        zh :: fn -> int do self.n + 1 end', '        zh()', '    end',
                                     '    zg()', 'end }'],
                                    [hd, '    self.n = 2', '    1', 'end }']]
+    # a field the blob does not have, read from a value whose type is still UNKNOWN where the access is written and becomes
+    # known later: a method written BEFORE the field it reads through `self`; an un-annotated parameter annotated / passed /
+    # stored / assigned afterwards
+    st["late-absent-field"] = [['zo5 :: Zout { get: fn -> int do', '    self.child.nope_field', 'end, child: Zin { v: 1 } }'],
+                               ['zo5 :: Zout { child: Zin { v: 1 }, get: fn -> int do', '    self.child.nope_field', 'end }'],
+                               ['zo5 :: Zout { get: fn -> int do', '    zg :: fn -> int do self.child.nope_field end', '    zg()',
+                                'end, child: Zin { v: 1 } }'],
+                               ['zlf :: fn p do', '    zq :: p.nope_field', '    zr: Zb : p', 'end'],
+                               ['zlf :: fn p do', '    zq :: p.nope_field', '    ztakesb(p)', 'end'],
+                               ['zlf :: fn p do', '    zq :: p.nope_field', '    zl :: [p, ZBV]', 'end'],
+                               ['zlf :: fn p do', '    zq :: p.nope_field', '    p == ZBV', 'end'],
+                               ['zlf :: fn p, q do', '    zq :: p.child.nope_field', '    zr: Zout : p', 'end'],
+                               ['zlf :: fn p do', '    zq :: p.nope_field', 'end', 'zlf(ZBV)']]
+    st["ok:late-present-field"] = [['zo5 :: Zout { get: fn -> int do', '    self.child.v', 'end, child: Zin { v: 1 } }'],
+                                   ['zlf :: fn p do', '    zq :: p.a', '    zr: Zb : p', 'end'],
+                                   ['zlf :: fn p do', '    zq :: p.b', '    ztakesb(p)', '    zl :: [p, ZBV]', 'end'],
+                                   ['zlf :: fn p do', '    zq :: p.a', 'end', 'zlf(ZBV)']]
     # the name of a blob / an enum is a type, it has no value (9c09349)
     tnames = ["Zb", "Ze", "Zg", "Zx", "Zbx"] + sorted(g.blobs)[:2] + sorted(g.enums)[:2]
     ex["type-name-as-value"] = list(dict.fromkeys(tnames))
@@ -1308,7 +1385,7 @@ def c05_plants(tmpl, g, r, kinds=None):
                 d = info_dict(info)
                 if d["where"] == "global":
                     continue
-                if d.get("pure") == "1" and any(":=" in l or "zcf" in l or "zcg" in l or "self." in l or "zglt(" in l or "zggt(" in l or "zimp(" in l or "print(" in l
+                if d.get("pure") == "1" and any(":=" in l or "zcf" in l or "zcg" in l or "zlf" in l or "self." in l or "zglt(" in l or "zggt(" in l or "zimp(" in l or "print(" in l
                                              for l in s):
                     continue        # mutable definitions / calls of impure local functions are rejected in pure functions anyway
                 out.append((k, "S", i, info, s))
